@@ -22,7 +22,8 @@ CONSTANTS GridLen, MaxSamples, Vals, Tokens,
           Mults,          \* level-2 window length = R1 * m, m \in Mults
           Counts1,        \* target chunk counts of level 1
           Counts2,        \* target chunk counts of level 2 (capped at the number of level-1 chunks)
-          CaseSamples
+          CaseSamples,
+          CaseCounts1     \* leg B: level-1 chunk counts handed to the harness (subset of Counts1)
 
 VARIABLES tset, raw, m, nc1, nc2, pc, p, c1, rest, c2
 vars == <<tset, raw, m, nc1, nc2, pc, p, c1, rest, c2>>
@@ -120,6 +121,6 @@ AlwaysProgress == [][Progress]_vars      \* with deadlock checking on: terminati
 (* ---- leg B ---- *)
 CasesFile == IF "VERIF_CASES" \in DOMAIN IOEnv THEN IOEnv.VERIF_CASES ELSE "cases.ndjson"
 CaseSeq == SetToSeq({ [ts |-> s.ts, vs |-> s.vs, ks |-> s.ks, r |-> R1, m |-> mm, nc1 |-> a, nc2 |-> b, glen |-> GridLen]
-                        : s \in RawSeries(CaseSamples), mm \in Mults, a \in Counts1, b \in Counts2 })
+                        : s \in RawSeries(CaseSamples), mm \in Mults, a \in CaseCounts1, b \in Counts2 })
 ASSUME ndJsonSerialize(CasesFile, CaseSeq)
 =============================================================================
